@@ -280,7 +280,7 @@ template<class Shape_, class Space_> vj::Value run_mesh(const vj::Value& c, Mesh
   put_worst(f, "rep", wrep); put_worst(f, "dgrad", wgrad); put_worst(f, "dhess", whess);
 
   // ---- Continuous: seeded integer coefficients, both sides of every interior facet ----
-  Worst wjump, wgjump, wmean; long long nint = 0;
+  Worst wjump, wgjump, wmean; long long nint = 0, nonplanar = 0;
   {
     unsigned long long st = 0x9E3779B97F4A7C15ull ^ (unsigned long long)c.get_int("seed", 1);
     std::vector<double> coef(ng);
@@ -347,6 +347,16 @@ template<class Shape_, class Space_> vj::Value run_mesh(const vj::Value& c, Mesh
           if(l1[q] < 0 || l2[q] < 0) { std::fclose(f); return vh::bad("facet vertex not found in adjacent cell"); }
         }
         double mean1 = 0, mean2 = 0, meanabs = 0, area = 0;
+        // facet means are compared on planar facets only: on a non-planar (bilinear) facet the surface element is not polynomial, so
+        // neither this reference quadrature nor the node functional's own cubature integrates exactly and the two need not agree
+        bool planar = true;
+        if(Fam<Shape_>::cube && dim == 3)
+        {
+          double e1[3], e2[3], e3[3];
+          for(int a(0); a < 3; ++a) { e1[a] = vs[fv[fi][1]][a] - vs[fv[fi][0]][a]; e2[a] = vs[fv[fi][2]][a] - vs[fv[fi][0]][a]; e3[a] = vs[fv[fi][3]][a] - vs[fv[fi][0]][a]; }
+          const double det = e1[0] * (e2[1] * e3[2] - e2[2] * e3[1]) - e1[1] * (e2[0] * e3[2] - e2[2] * e3[0]) + e1[2] * (e2[0] * e3[1] - e2[1] * e3[0]);
+          planar = std::fabs(det) <= 1e-12 * (1.0 + std::fabs(e1[0]) + std::fabs(e2[1]) + std::fabs(e3[2]));
+        }
         ce.prepare(c1); ce2.prepare(cc);
         for(std::size_t p(0); p < wts.size(); ++p)
         {
@@ -387,11 +397,12 @@ template<class Shape_, class Space_> vj::Value run_mesh(const vj::Value& c, Mesh
             meanabs += qw[p] * da * (ce.absval(coef.data()) + ce2.absval(coef.data()));
           }
         }
-        if(area > 0) wmean.add(std::fabs(mean1 - mean2) / area, 1e-8 * (1.0 + meanabs / area));
+        if(area > 0 && planar) wmean.add(std::fabs(mean1 - mean2) / area, 1e-8 * (1.0 + meanabs / area));
+        if(!planar) ++nonplanar;
       }
     ce.finish(); ce2.finish();
   }
-  std::fprintf(f, ",\"nintfacets\":%lld", nint);
+  std::fprintf(f, ",\"nintfacets\":%lld,\"nonplanar\":%lld", nint, nonplanar);
   put_worst(f, "jump", wjump); put_worst(f, "gjump", wgjump); put_worst(f, "mjump", wmean);
 
   // ---- TrafoVolume ----
@@ -473,7 +484,10 @@ template<class Shape_, class Space_> vj::Value run_ref(const vj::Value& c)
   Space_ space(trafo);
   typename CE::TrafoEval te(trafo); typename CE::SpaceEval se(space);
   te.prepare(0); se.prepare(te);
-  typename CE::SpaceEval::template ConfigTraits<SpaceTags::ref_value | SpaceTags::ref_grad | SpaceTags::ref_hess>::EvalDataType sd;
+  constexpr bool rv = *(CE::SpaceEval::eval_caps & SpaceTags::ref_value), rg = *(CE::SpaceEval::eval_caps & SpaceTags::ref_grad), rh = *(CE::SpaceEval::eval_caps & SpaceTags::ref_hess);
+  static_assert(rv, "no reference values");
+  constexpr SpaceTags rtags = SpaceTags::ref_value | (rg ? SpaceTags::ref_grad : SpaceTags::none) | (rh ? SpaceTags::ref_hess : SpaceTags::none);
+  typename CE::SpaceEval::template ConfigTraits<rtags>::EvalDataType sd;
   const double S = double(c["S"].as_int());
   const double den = double(c["den"].as_int());     // common denominator of all numerators: den * S^D
   const int nl = se.get_num_local_dofs();
@@ -485,7 +499,9 @@ template<class Shape_, class Space_> vj::Value run_ref(const vj::Value& c)
     const auto n = pts[p]["n"].ints();
     typename CE::TrafoEval::DomainPointType xi;
     for(int a(0); a < dim; ++a) xi[a] = double(n[std::size_t(a)]) / S;
-    se.eval_ref_values(sd, xi); se.eval_ref_gradients(sd, xi); se.eval_ref_hessians(sd, xi);
+    se.eval_ref_values(sd, xi);
+    if constexpr (rg) se.eval_ref_gradients(sd, xi);
+    if constexpr (rh) se.eval_ref_hessians(sd, xi);
     const vj::Value& V = pts[p]["v"]; const vj::Value& G = pts[p]["g"]; const vj::Value& H = pts[p]["h"];
     for(int j(0); j < nl; ++j)
     {
@@ -494,23 +510,74 @@ template<class Shape_, class Space_> vj::Value run_ref(const vj::Value& c)
         r["exp"] = exp; r["got"] = got * den; r["what"] = what; return r; };
       const double v = double(sd.phi[j].ref_value);
       if(v * den != double(V[std::size_t(j)].as_int())) return bad("value", v, V[std::size_t(j)].as_int());
-      for(int a(0); a < dim; ++a)
-      {
-        const double g = double(sd.phi[j].ref_grad[a]);
-        if(g * den != double(G[std::size_t(j)][std::size_t(a)].as_int())) return bad("gradient", g, G[std::size_t(j)][std::size_t(a)].as_int());
-        for(int b(0); b < dim; ++b)
+      ++ncmp;
+      if constexpr (rg)
+        for(int a(0); a < dim; ++a)
         {
-          const double h = double(sd.phi[j].ref_hess[a][b]);
-          if(h * den != double(H[std::size_t(j)][std::size_t(a)][std::size_t(b)].as_int())) return bad("hessian", h, H[std::size_t(j)][std::size_t(a)][std::size_t(b)].as_int());
+          const double g = double(sd.phi[j].ref_grad[a]);
+          if(g * den != double(G[std::size_t(j)][std::size_t(a)].as_int())) return bad("gradient", g, G[std::size_t(j)][std::size_t(a)].as_int());
           ++ncmp;
         }
-        ++ncmp;
-      }
-      ++ncmp;
+      if constexpr (rh)
+        for(int a(0); a < dim; ++a)
+          for(int b(0); b < dim; ++b)
+          {
+            const double h = double(sd.phi[j].ref_hess[a][b]);
+            if(h * den != double(H[std::size_t(j)][std::size_t(a)][std::size_t(b)].as_int())) return bad("hessian", h, H[std::size_t(j)][std::size_t(a)][std::size_t(b)].as_int());
+            ++ncmp;
+          }
     }
   }
   se.finish(); te.finish();
-  vj::Value r = vh::ok(); r["ncmp"] = ncmp; return r;
+  vj::Value r = vh::ok(); r["ncmp"] = ncmp; r["caps"] = (long long)(1 + (rg ? 2 : 0) + (rh ? 4 : 0)); return r;
+}
+
+// families without reference capabilities (Discontinuous): evaluated through the standard trafo on a mesh that consists of the
+// reference cell itself (vertices supplied by the specification), where physical = reference coordinates
+template<class Shape_, class Space_> vj::Value run_ref_phys(const vj::Value& c)
+{
+  typedef MeshT<Shape_> MeshType;
+  typedef Trafo::Standard::Mapping<MeshType> TrafoType;
+  typedef CellEval<Space_> CE;
+  constexpr int dim = Shape_::dimension;
+  vj::Value raw = vj::Value::object();
+  raw["X"] = c["rv"]; raw["cs"] = 0;
+  vj::Value cells = vj::Value::array(), cell = vj::Value::array();
+  for(std::size_t k(0); k < c["rv"].size(); ++k) cell.push(vj::Value((long long)k));
+  cells.push(cell); raw["cells"] = cells;
+  std::unique_ptr<MeshType> mesh = build_raw<Shape_>(raw);
+  TrafoType trafo(*mesh);
+  Space_ space(trafo);
+  CE ce(space);
+  ce.prepare(0);
+  const double S = double(c["S"].as_int()), den = double(c["den"].as_int());
+  if(ce.nl != (int)c["nloc"].as_int()) return vh::bad("number of local dofs differs", c["nloc"], vj::Value((long long)ce.nl));
+  const vj::Value& pts = c["pts"];
+  long long ncmp = 0;
+  for(std::size_t p(0); p < pts.size(); ++p)
+  {
+    const auto n = pts[p]["n"].ints();
+    double xi[3] = {0, 0, 0};
+    for(int a(0); a < dim; ++a) xi[a] = double(n[std::size_t(a)]) / S;
+    ce.at(xi);
+    for(int j(0); j < ce.nl; ++j)
+    {
+      const double v = double(ce.sd.phi[j].value);
+      if(v * den != double(pts[p]["v"][std::size_t(j)].as_int()))
+      { vj::Value r = vh::bad("value of basis function " + std::to_string(j) + " on the reference cell at " + vj::dump(pts[p]["n"]) + " differs"); r["exp"] = pts[p]["v"][std::size_t(j)]; r["got"] = v * den; return r; }
+      ++ncmp;
+      if constexpr (CE::has_grad)
+        for(int a(0); a < dim; ++a)
+        {
+          const double g = double(ce.sd.phi[j].grad[a]);
+          if(g * den != double(pts[p]["g"][std::size_t(j)][std::size_t(a)].as_int()))
+          { vj::Value r = vh::bad("gradient of basis function " + std::to_string(j) + " on the reference cell at " + vj::dump(pts[p]["n"]) + " differs"); r["exp"] = pts[p]["g"][std::size_t(j)][std::size_t(a)]; r["got"] = g * den; return r; }
+          ++ncmp;
+        }
+    }
+  }
+  ce.finish();
+  vj::Value r = vh::ok(); r["ncmp"] = ncmp; r["caps"] = (long long)(8 + (CE::has_grad ? 2 : 0)); return r;
 }
 
 template<class Shape_, class Space_> vj::Value run_space(const vj::Value& c)
@@ -519,8 +586,8 @@ template<class Shape_, class Space_> vj::Value run_space(const vj::Value& c)
   constexpr int dim = Shape_::dimension;
   if(c["kind"].as_str() == "ref")
   {
-    if constexpr (*(CellEval<Space_>::SpaceEval::eval_caps & SpaceTags::ref_hess)) return run_ref<Shape_, Space_>(c);
-    else return vh::bad("family has no reference evaluation");
+    if constexpr (*(CellEval<Space_>::SpaceEval::eval_caps & SpaceTags::ref_value)) return run_ref<Shape_, Space_>(c);
+    else return run_ref_phys<Shape_, Space_>(c);
   }
   const vj::Value& src = c["src"];
   std::unique_ptr<MeshType> own; MeshType* mesh = nullptr;
@@ -534,9 +601,22 @@ template<class Shape_, class Space_> vj::Value run_space(const vj::Value& c)
     const int g = (int)c.get_int("snap", 0);
     if(g > 0) snap(*mesh, g); else dyadic = (min_scale(*mesh, 20) >= 0);
   }
+  // seeded dyadic distortion of the vertices (offsets in {-1,0,1} * 2^-distort per coordinate): general affine simplices,
+  // non-affine (multilinear) hypercubes; the caller chooses the amplitude small enough to keep all cells valid
+  const int dist = (int)c.get_int("distort", 0);
+  if(dist > 0)
+  {
+    unsigned long long st = 0xD1B54A32D192ED03ull ^ (unsigned long long)c.get_int("seed", 1);
+    auto& vs = mesh->get_vertex_set();
+    for(Index i(0); i < vs.get_num_vertices(); ++i)
+      for(int k(0); k < dim; ++k)
+      { st = st * 6364136223846793005ull + 1442695040888963407ull; vs[i][k] += std::ldexp(double(int((st >> 33) % 3) - 1), -dist); }
+  }
   const int nref = (int)c.get_int("nref", 0);
   std::unique_ptr<MeshType> fine;
   for(int l(0); l < nref; ++l) { Geometry::StandardRefinery<MeshType> ref(*mesh); fine = ref.make_unique(); own = std::move(fine); mesh = own.get(); }
+  // exact comparisons and integer dumps only for meshes whose coordinates are dyadic (decided on the mesh actually used)
+  dyadic = dyadic && (min_scale(*mesh, 24) >= 0);
   if((long long)mesh->get_num_elements() > c.get_int("maxcells", 400)) { vj::Value r = vh::ok(); r["skip"] = true; r["why"] = "too many cells"; return r; }
   (void)dim;
   return run_mesh<Shape_, Space_>(c, *mesh, dyadic);
